@@ -121,10 +121,17 @@ class MbootCore:
             15: [0x100000],  # ram size
             17: [0],  # security state
             18: [0x11223344, 0x55667788, 0x99AABBCC, 0xDDEEFF00],  # unique id
+            0x14: [2048],  # flash access segment size
+            0x15: [64],  # flash access segment count
+            0x16: [2],  # flash read margin
             22: [5],  # irq notifier pin (writable)
             0x40: [0xC0DE0040],  # vendor-specific properties outside the host's enumeration (0x40 writable)
             0xC8: [0x11111111, 0x22222222],
         }
+        if knobs.get("long_props"):
+            # answers with more value words than fit the 32 bytes of a padded host command (the framing carries them)
+            self.props[12] = [0x0, 0x3FF, 0x2000_0000, 0x2000_0FFF, 0x3000_0000, 0x3000_00FF, 0x1000_0000, 0x1000_7FFF]
+            self.props[0xC8] = [0x11111111 * k for k in range(1, 8)]
         self.writable_props = {10, 22, 0x40}
         self.otp: dict[int, bytes] = {}
         self.fuses: dict[int, bytes] = {}
